@@ -4,6 +4,7 @@ package interp
 // interpreter and reports whether the behaviour the obligation guards against is observed.
 
 import (
+	"strings"
 	"runtime"
 	"context"
 	"fmt"
@@ -105,3 +106,32 @@ func init() {
 }
 
 func runtimeNumGoroutine() int { return runtime.NumGoroutine() }
+
+// C13: a script that obtains an unwrapped *log.Logger can terminate the host. The scenario runs
+// the script in a child process (this test binary re-executed) and reports whether the child died.
+func verifChildEval(src string) (exitCode int, out string) {
+	cmd := osexecCommand(osArgs0(), "-test.run=TestZZVerifChild$")
+	cmd.Env = append(osEnviron(), "VERIF_CHILD_SRC="+src)
+	b, err := cmd.CombinedOutput()
+	code := 0
+	if err != nil {
+		code = 1
+		if ee, ok := err.(interface{ ExitCode() int }); ok {
+			code = ee.ExitCode()
+		}
+	}
+	return code, string(b)
+}
+
+func init() {
+	logger := func(expr string) func() (bool, string) {
+		return func() (bool, string) {
+			code, out := verifChildEval(`import ("log"; "log/slog"; "log/syslog"; "os"); var _ = slog.Default; var _ = syslog.LOG_INFO; var _ = os.Args; func F() { defer func() { recover() }(); ` + expr + `.Fatal("bye") }; func main() { F(); println("SURVIVED") }`)
+			return !strings.Contains(out, "SURVIVED"), fmt.Sprintf("child exit code %d, survived=%v", code, strings.Contains(out, "SURVIVED"))
+		}
+	}
+	verifProtocolScenarios = append(verifProtocolScenarios,
+		verifScenario{"C13/stdlib/default-table/no-unwrapped-logger[log.Default]", logger(`log.Default()`)},
+		verifScenario{"C13/stdlib/default-table/no-unwrapped-logger[log/slog.NewLogLogger]", logger(`slog.NewLogLogger(slog.Default().Handler(), slog.LevelInfo)`)},
+	)
+}
